@@ -57,8 +57,8 @@ const (
 	OFpLt
 	OFpLe
 	OFpIsNaN
-	OFpToSInt // FP -> BV64, amd64 cvttsd2sq semantics
-	OFpSame   // SMT = on FP: same value incl. sign of zero
+	OFpToSInt  // FP -> BV64, amd64 cvttsd2sq semantics
+	OFpSame    // SMT = on FP: same value incl. sign of zero
 	OFpOfSIntR // BV64 (signed) -> FP, RNE, possibly inexact (no integer shortcuts)
 )
 
@@ -465,9 +465,9 @@ func (tt *TermTable) bin(op Op, a, b *Term) *Term {
 	return tt.mk(&Term{op: op, w: w, args: []*Term{a, b}})
 }
 
-func (tt *TermTable) Add(a, b *Term) *Term  { return tt.bin(OAdd, a, b) }
-func (tt *TermTable) Sub(a, b *Term) *Term  { return tt.bin(OSub, a, b) }
-func (tt *TermTable) Mul(a, b *Term) *Term  { return tt.bin(OMul, a, b) }
+func (tt *TermTable) Add(a, b *Term) *Term         { return tt.bin(OAdd, a, b) }
+func (tt *TermTable) Sub(a, b *Term) *Term         { return tt.bin(OSub, a, b) }
+func (tt *TermTable) Mul(a, b *Term) *Term         { return tt.bin(OMul, a, b) }
 func (tt *TermTable) BvOp(op Op, a, b *Term) *Term { return tt.bin(op, a, b) }
 
 func (tt *TermTable) Neg(a *Term) *Term {
